@@ -252,6 +252,9 @@ static Coins gen_coins(const Grp &P, Variant v, size_t N, bool scripted) {
 
 int main(int argc, char **argv) {
 	Args A(argc, argv);
+	// common.hh seeds the case generator with seed*golden+17: consecutive seeds are the same SplitMix64 stream shifted by one
+	// draw (and converge after the first rejection loop).  Hash the seed instead.
+	{ SplitMix64 m(A.seed ^ 0xD1B54A32D192ED03ULL); m.next(); gen() = SplitMix64(m.next()); }
 	if (!init_libTMCG()) { fprintf(stderr, "init_libTMCG failed\n"); return 2; }
 	std::string part = "all";
 	for (int i = 1; i < argc; i++) if (!strcmp(argv[i], "--part") && i + 1 < argc) part = argv[++i];
